@@ -236,16 +236,20 @@ def value_of(m):
 
 def lib_tables(case, defs):
     """static tables of the library modules (name -> def id) and the values of their LIBVAL variables"""
-    tables, vals = [], []
+    tables, vals, broken = [], [], []
     for k, forms in enumerate(case["libs"]):
         t = {}
         vs = []
         home = "L%d" % k
-        for f in forms:
+        bad = None  # the library cannot be imported: its own text uses a reader macro its reader does not know
+        for i, f in enumerate(forms):
             if f[0] == "def":
                 defs[f[3]] = (f[2], home)
                 t[f[1]] = f[3]
             elif f[0] == "req":
+                if broken[f[1]] is not None:
+                    bad = dict(at=i, name=broken[f[1]]["name"], via=f[1])
+                    break
                 src = tables[f[1]]
                 names = sorted(src) if f[2] == "*" else f[2]
                 for n in names:
@@ -256,11 +260,17 @@ def lib_tables(case, defs):
                 env = Env(dict(t), defs, {})
                 try:
                     vs.append(value_of(["l", parse_all(f[1], env)]))
-                except LexErr:
-                    raise Invalid("library uses an undefined reader macro")
+                except LexErr as x:
+                    bad = dict(at=i, name=x.name, via=None)
+                    break
         tables.append(t)
         vals.append(vs)
-    return tables, vals
+        broken.append(bad)
+    return tables, vals, broken
+
+
+class CompileErr(Exception):
+    """a syntax error that surfaces while a form is compiled (a required library cannot be read)"""
 
 
 # ---------------------------------------------------------------------------- the driver loop (shared with the harness)
@@ -395,7 +405,7 @@ class Model:
         validate_shape(case)
         self.case = case
         self.defs = {}  # def id -> (kind, home)
-        self.libtab, self.libvals = lib_tables(case, self.defs)
+        self.libtab, self.libvals, self.libbroken = lib_tables(case, self.defs)
         self.libnames = ["L%d" % k for k in range(len(case["libs"]))]
         for st in case["streams"]:
             stream_text(st, self.libnames)  # shape check (raises Invalid)
@@ -416,8 +426,9 @@ class Model:
                     if p[0] == "def":
                         self.defined_anywhere.setdefault(p[1], set()).add(s)
         for k, t in enumerate(self.libtab):
-            for nme in t:
-                self.defined_anywhere.setdefault(nme, set()).add("L%d" % k)
+            if self.libbroken[k] is None:
+                for nme in t:
+                    self.defined_anywhere.setdefault(nme, set()).add("L%d" % k)
 
     # -- helpers
     def _reader_table(self, s):
@@ -542,10 +553,16 @@ class Model:
                 tab[p[1]] = p[3]
                 self.modtab[m][p[1]] = p[3]
             elif p[0] == "req":
+                self._import_lib(p[1])
+                b = self.libbroken[p[1]]
+                if b is not None:
+                    # the library is read by its own reader, which knows only the library's reader macros
+                    self.features.add("error:library-text-uses-reader-macro-it-lacks")
+                    if b["name"] in tab:
+                        self.features.add("library-text-uses-reader-macro-of-the-requiring-stream")
+                    raise CompileErr(b["name"])
                 src = self.libtab[p[1]]
                 names = sorted(src) if p[2] == "*" else p[2]
-                self.libs_used.add(p[1])
-                self._lib_closure(p[1])
                 self.features.add("require:*" if p[2] == "*" else "require:list")
                 if p[2] != "*" and set(p[2]) != set(src):
                     self.features.add("require:proper-subset")
@@ -572,12 +589,15 @@ class Model:
                     self.features.add("nested-stream-same-module")
                 self.run_lazy(p[1])
 
-    def _lib_closure(self, k):
-        for f in self.case["libs"][k]:
+    def _import_lib(self, k):
+        b = self.libbroken[k]
+        for i, f in enumerate(self.case["libs"][k]):
             if f[0] == "req":
-                self.libs_used.add(f[1])
                 self.features.add("library-requires-library")
-                self._lib_closure(f[1])
+                self._import_lib(f[1])
+            if b is not None and i == b["at"]:
+                return
+        self.libs_used.add(k)
 
     def run_entry(self, s, idx, model):
         """run-time effects; -> value (or ANY)"""
@@ -621,7 +641,7 @@ class Model:
                 ms = self.read_entry(s, idx)
             except LexErr as x:
                 self.out[s]["status"] = "syntax-error"
-                self.out[s]["err"] = dict(name=x.name, entry=idx, why=self._why_undefined(s, idx, x.name, st["entries"][idx]))
+                self.out[s]["err"] = dict(name=x.name, entry=idx, why=self._why_undefined(s, idx, x.name, st["entries"][idx]), phase="read")
                 self.features.add("error:" + self.out[s]["err"]["why"])
                 raise
             if ms:
@@ -642,7 +662,13 @@ class Model:
             o["status"] = "ok"
             return True
         idx, model = nf
-        self.compile_entry(s, idx)
+        try:
+            self.compile_entry(s, idx)
+        except CompileErr as x:
+            o["forms"].append(dict(model=model, value=ANY))
+            o["status"] = "syntax-error"
+            o["err"] = dict(name=x.args[0], entry=idx, why="library-text-uses-reader-macro-it-lacks", phase="compile")
+            return True
         val = self.run_entry(s, idx, model)
         o["forms"].append(dict(model=model, value=val))
         o["nforms"] += 1
@@ -664,6 +690,10 @@ class Model:
                 got.append(nf)
                 self.compile_entry(s, nf[0])
         except LexErr:
+            return
+        except CompileErr as x:
+            o["status"] = "syntax-error"
+            o["err"] = dict(name=x.args[0], entry=nf[0], why="library-text-uses-reader-macro-it-lacks", phase="compile")
             return
         val = ANY
         for idx, model in got:
